@@ -182,6 +182,28 @@ fetch_steps = tokenize("fetch_symbol_file", fetch_body, [
     ("Ok(symbol_file)", "FReturnOk"),
 ], LOG)
 
+# fetch_lookup (binaries / extra debug info; C16/FileFetch.v): statement by statement.  Every `?` is an exit edge of the model
+# (create error, write error, persist error fail this server's fetch); the file is written only through the NamedTempFile and
+# enters the cache only by persist_noclobber.
+lookup_body = function("fetch_lookup", "fn fetch_lookup(client: &Client, base_url: &Url, lookup: &FileLookup, cache: &Path, tmp: &Path,) -> Result<(PathBuf, Option<Url>), SymbolError>")
+lookup_steps = tokenize("fetch_lookup", lookup_body, [
+    ("let url = join_rel(base_url, &lookup.server_rel).map_err(|_| SymbolError::NotFound)?;", None),
+    ("let mut res = client.get(url.clone()).send().await.and_then(|res| res.error_for_status()).map_err(|_| SymbolError::NotFound)?;", "LSend"),
+    ("let final_cache_path = cache.join(&lookup.cache_rel);", None),
+    ("let mut temp = create_cache_file(tmp, &final_cache_path)?;", "LCreateQ"),
+    ("while let Some(chunk) = res.chunk().await.map_err(std::io::Error::other)? { temp.write_all(&chunk[..])?; }", "LWriteLoopQ"),
+    ("temp.persist_noclobber(&final_cache_path).map_err(std::io::Error::other)?;", "LPersistNoclobberQ"),
+    ("Ok((final_cache_path, Some(url)))", "LReturnOk"),
+], LOG)
+# how locate_file_internal uses it: local lookup first (its Ok ends the lookup), then the servers in order, first Ok wins
+lfi = norm(src)
+for need, what in (
+    ("ifletOk(path)=self.local.locate_file(module,file_kind).await{returnOk((path,None));}", "locate_file_internal: the local lookup's Ok answers"),
+    ("forurlin&self.urls{letfetch=fetch_lookup(&self.client,url,&lookup,&self.cache,&self.tmp).await;ifletOk((path,url))=fetch{returnOk((path,url));}}", "locate_file_internal: servers in order, first Ok wins"),
+):
+    if lfi.count(need) != 1:
+        die("%s: statement not found exactly once" % what)
+
 if set(url_srcs) != {"report", "note"}:
     die("fetch_symbol_file: URL report / note statements not found: %s" % sorted(url_srcs))
 # the two helpers are used by the symbol path exactly once each (fetch_lookup / unpack_cabinet_file have their own
@@ -207,7 +229,11 @@ Definition fetch_steps : list fstep := [%s].
 Definition report_url_src : RM.C16.Model.urlsrc := RM.C16.Model.%s.
 (* third argument of commit_cache_file: the URL of the INFO URL note *)
 Definition note_url_src : RM.C16.Model.urlsrc := RM.C16.Model.%s.
-""" % ("; ".join(create_ops), "; ".join(commit_ops), "; ".join(fetch_steps), url_srcs["report"], url_srcs["note"])
+
+(* fn fetch_lookup (binaries, extra debug info), statement by statement; Q = the statement ends in `?` *)
+Inductive lstep := LSend | LCreateQ | LWriteLoopQ | LPersistNoclobberQ | LReturnOk.
+Definition lookup_steps : list lstep := [%s].
+""" % ("; ".join(create_ops), "; ".join(commit_ops), "; ".join(fetch_steps), url_srcs["report"], url_srcs["note"], "; ".join(lookup_steps))
 
 os.makedirs(outdir, exist_ok=True)
 path = os.path.join(outdir, "C16Ops.v")
